@@ -63,15 +63,28 @@ class Contexts:
     # -- links between spellings of the same flag, verified on the source ---------------------------------
     def _check_links(self):
         P = self.program
-        init = P.view("Node").method("__init__")[1]
-        ok = False
-        for n in ast.walk(init):
-            if isinstance(n, ast.If) and unparse(n.test).replace('"', "'") == "self.schedule.schedule_type == 'slotted'":
-                t = [s for s in n.body if isinstance(s, ast.Assign) and is_self_attr(s.targets[0], "slotted") and unparse(s.value) == "True"]
-                f = [s for s in n.orelse if isinstance(s, ast.Assign) and is_self_attr(s.targets[0], "slotted") and unparse(s.value) == "False"]
-                ok = bool(t and f)
-        if not ok:
-            raise AnalysisError("config: Node.__init__ no longer sets self.slotted from schedule.schedule_type == 'slotted' (if/else)")
+        nview = P.view("Node")
+        icls, init = nview.method("__init__")
+        w = Walker(P, nview, keep=lambda e: e.kind == "guard" or (e.kind == "assign" and e.d["target"] in ("self.slotted", "self.schedule")),
+                   track=lambda t, f: "schedule_type" in unparse(t) or "isinstance" in unparse(t), inline=lambda ev: False)
+        n_ok = 0
+        for st in w.paths_of(icls, init):
+            if st.status == "raise":
+                continue
+            facts = {}
+            for e in st.events:
+                if e.kind == "guard":
+                    guards.assume(e.d["formula"], e.pol, facts)
+            sl = [e.d["value"] for e in st.events if e.kind == "assign" and e.d["target"] == "self.slotted"]
+            sc = [e.d["value"] for e in st.events if e.kind == "assign" and e.d["target"] == "self.schedule"]
+            is_slotted = facts.get(("eq", "'slotted'", "self.schedule.schedule_type"))
+            has_sched = [v for a, v in facts.items() if a[0] == "isinstance" and a[2].endswith("Schedule")]
+            want = "True" if is_slotted else "False"
+            if len(sl) != 1 or sl[0] != want or len(sc) != 1 or (sc[0] == "None") != (not (has_sched and has_sched[0])):
+                raise AnalysisError("config: Node.__init__ no longer sets self.slotted / self.schedule from the type of number_of_servers and schedule_type == 'slotted'")
+            n_ok += 1
+        if n_ok < 3:
+            raise AnalysisError("config: Node.__init__ paths not recognised (%d)" % n_ok)
         # slotted nodes have c == 0 for ever: Slotted.__init__ sets c = 0, get_next_slot does not touch it
         sl = P.classes.get("Slotted")
         if sl is None:
